@@ -27,6 +27,7 @@ inductive Step where
   | evict (n : Nat)
   | create (n : Nat) (tx : Tx) (payload : Option Payload) (env : Env)
   | conn (n peer : Nat) (mode : ConnMode)
+  | restart (n : Nat)
 
 def peerOf (n : Node) (src : Nat) : Option Peer := n.peers.find? (fun p => p.key == src)
 
@@ -71,6 +72,10 @@ def World.stepR (cfg : Cfg) (w : World) : Step → World × Option HR
     match w.nodes[i]? with
     | none => (w, none)
     | some n => ({ w with nodes := w.nodes.set i (connChange n peer mode) }, none)
+  | .restart i =>
+    match w.nodes[i]? with
+    | none => (w, none)
+    | some n => ({ w with nodes := w.nodes.set i (restartNode n) }, none)
   | .create i tx payload env =>
     match w.nodes[i]? with
     | none => (w, none)
